@@ -6,6 +6,9 @@
 //!                                   fl : file_len or `-`
 //!   `K <I|V|C> <Format> <w> <h> <d> <op>...`  constructor + builder chain
 //!                                   op: S:w:h | D:w:h:d|- | M:m | X
+//!   `KS <I|V|C> <9:F:cc|9:M:fl:bits:r:g:b:a|10:dxgi> <w> <h> <d> <op>...`  struct-level constructor
+//!                                   (Dx9Header::new_* / Dx10Header::new_*) + chain of struct-level setters
+//!                                   op: S:w:h | D:w:h:d|- | M:m | C:faces | P:F:cc | P:M:.. | G:dxgi | R:dim | Q:misc | A:n | L:alpha
 //!   `X <hdr>`                       to_dx9 / to_dx10 on a header (canonical header token)
 //!   `TD <code>` `TF <fourcc>` `TM <Format>`   table rows (exhaustive part of the tie)
 //!
@@ -497,6 +500,102 @@ fn run_k(t: &[&str]) -> Option<(String, Vec<String>)> {
     Some((out, oracle))
 }
 
+fn parse_pf(p: &[&str]) -> Option<Dx9PixelFormat> {
+    let n = |i: usize| -> Option<u32> { p.get(i)?.parse().ok() };
+    match *p.first()? {
+        "F" if p.len() == 2 => Some(Dx9PixelFormat::FourCC(FourCC(n(1)?))),
+        "M" if p.len() == 7 => Some(Dx9PixelFormat::Mask(MaskPixelFormat {
+            flags: PixelFormatFlags::from_bits_retain(n(1)?),
+            rgb_bit_count: RgbBitCount::try_from(n(2)?).ok()?,
+            r_bit_mask: n(3)?,
+            g_bit_mask: n(4)?,
+            b_bit_mask: n(5)?,
+            a_bit_mask: n(6)?,
+        })),
+        _ => None,
+    }
+}
+
+/// what a DDS file can express: not the DX10 marker as a DX9 four CC, no FOURCC flag on a mask format, and a 3D
+/// texture only with array size 1 (everything else the struct-level setters build must survive serialisation)
+fn expressible(h: &Header) -> bool {
+    match h {
+        Header::Dx9(x) => match &x.pixel_format {
+            Dx9PixelFormat::FourCC(c) => *c != FourCC::DX10,
+            Dx9PixelFormat::Mask(m) => !m.flags.contains(PixelFormatFlags::FOURCC),
+        },
+        Header::Dx10(x) => !(x.resource_dimension == ResourceDimension::Texture3D && x.array_size != 1),
+    }
+}
+
+fn run_ks(t: &[&str]) -> Option<(String, Vec<String>)> {
+    let ctor = *t.get(1)?;
+    if !matches!(ctor, "I" | "V" | "C") {
+        return None;
+    }
+    let st: Vec<&str> = t.get(2)?.split(':').collect();
+    let (w, h, d) = (p_u32(t.get(3)?)?, p_u32(t.get(4)?)?, p_u32(t.get(5)?)?);
+    let mut hd = match *st.first()? {
+        "9" => {
+            let pf = parse_pf(&st[1..])?;
+            Header::Dx9(match ctor {
+                "I" => Dx9Header::new_image(w, h, pf),
+                "V" => Dx9Header::new_volume(w, h, d, pf),
+                _ => Dx9Header::new_cube_map(w, h, pf),
+            })
+        }
+        "10" if st.len() == 2 => {
+            let f = DxgiFormat::try_from(p_u32(st[1])?).ok()?;
+            Header::Dx10(match ctor {
+                "I" => Dx10Header::new_image(w, h, f),
+                "V" => Dx10Header::new_volume(w, h, d, f),
+                _ => Dx10Header::new_cube_map(w, h, f),
+            })
+        }
+        _ => return None,
+    };
+    for s in &t[6..] {
+        let p: Vec<&str> = s.split(':').collect();
+        let n = |i: usize| -> Option<u32> { p.get(i)?.parse().ok() };
+        let od = |i: usize| -> Option<Option<u32>> {
+            let x = p.get(i)?;
+            if *x == "-" {
+                Some(None)
+            } else {
+                Some(Some(x.parse().ok()?))
+            }
+        };
+        hd = match (hd, *p.first()?) {
+            (Header::Dx9(x), "S") if p.len() == 3 => Header::Dx9(x.with_size(Size::new(n(1)?, n(2)?))),
+            (Header::Dx9(x), "D") if p.len() == 4 => Header::Dx9(x.with_dimensions(n(1)?, n(2)?, od(3)?)),
+            (Header::Dx9(x), "M") if p.len() == 2 => Header::Dx9(x.with_mipmap_count(NonZeroU32::new(n(1)?)?)),
+            (Header::Dx9(x), "C") if p.len() == 2 => {
+                let f: u32 = n(1)?;
+                if f > 255 {
+                    return None;
+                }
+                Header::Dx9(x.with_cube_map_faces(CubeMapFaces::from_bits_retain(f as u8)))
+            }
+            (Header::Dx9(x), "P") => Header::Dx9(x.with_pixel_format(parse_pf(&p[1..])?)),
+            (Header::Dx10(x), "S") if p.len() == 3 => Header::Dx10(x.with_size(Size::new(n(1)?, n(2)?))),
+            (Header::Dx10(x), "D") if p.len() == 4 => Header::Dx10(x.with_dimensions(n(1)?, n(2)?, od(3)?)),
+            (Header::Dx10(x), "M") if p.len() == 2 => Header::Dx10(x.with_mipmap_count(NonZeroU32::new(n(1)?)?)),
+            (Header::Dx10(x), "G") if p.len() == 2 => Header::Dx10(x.with_dxgi_format(DxgiFormat::try_from(n(1)?).ok()?)),
+            (Header::Dx10(x), "R") if p.len() == 2 => {
+                Header::Dx10(x.with_resource_dimension(ResourceDimension::try_from(n(1)?).ok()?))
+            }
+            (Header::Dx10(x), "Q") if p.len() == 2 => Header::Dx10(x.with_misc_flags(MiscFlags::from_bits_retain(n(1)?))),
+            (Header::Dx10(x), "A") if p.len() == 2 => Header::Dx10(x.with_array_size(n(1)?)),
+            (Header::Dx10(x), "L") if p.len() == 2 => Header::Dx10(x.with_alpha_mode(AlphaMode::try_from(n(1)?).ok()?)),
+            _ => return None,
+        };
+    }
+    let mut oracle = vec![];
+    let mut scratch = vec![];
+    let rr = if expressible(&hd) { roundtrip(&hd, &mut oracle) } else { roundtrip(&hd, &mut scratch) };
+    Some((format!("ok {} {}", fmt_header(&hd), rr), oracle))
+}
+
 fn same_shape(a: &Header, b: &Header) -> bool {
     a.width() == b.width() && a.height() == b.height() && a.depth() == b.depth() && a.mipmap_count() == b.mipmap_count()
 }
@@ -607,6 +706,7 @@ pub fn run(line: &str) -> Option<(String, Vec<String>)> {
     match *t.first()? {
         "P" => run_p(&t),
         "K" => run_k(&t),
+        "KS" => run_ks(&t),
         "X" => run_x(&t),
         "TD" => run_td(&t),
         "TF" => run_tf(&t),
@@ -807,6 +907,91 @@ pub fn gen(seed: u64, thorough: bool) -> Vec<String> {
                 2 => format!(" D:{a}:{b}:-"),
                 3 => format!(" M:{}", if rng.chance(1, 30) { 0 } else { c.max(1) }),
                 _ => " X".to_string(),
+            };
+        }
+        out.push(l);
+    }
+
+    // ---- struct-level constructors x setter chains (Dx9Header / Dx10Header builder methods)
+    let masks: Vec<String> = FORMATS
+        .iter()
+        .filter_map(|(_, f)| match Header::new_image(1, 1, *f) {
+            Header::Dx9(x) => match x.pixel_format {
+                Dx9PixelFormat::Mask(m) => Some(format!(
+                    "M:{}:{}:{}:{}:{}:{}",
+                    m.flags.bits(),
+                    u32::from(m.rgb_bit_count),
+                    m.r_bit_mask,
+                    m.g_bit_mask,
+                    m.b_bit_mask,
+                    m.a_bit_mask
+                )),
+                _ => None,
+            },
+            _ => None,
+        })
+        .collect();
+    let any_pf = |rng: &mut Rng| -> String {
+        match rng.below(10) {
+            0..=3 => format!("F:{}", rng.pick(KNOWN_FOURCC)),
+            4 => format!("F:{}", any_u32(rng, &bset)),
+            5..=7 if !masks.is_empty() => rng.pick(&masks).clone(),
+            _ => format!(
+                "M:{}:{}:{}:{}:{}:{}",
+                any_u32(rng, &bset) & !if rng.chance(9, 10) { 4 } else { 0 },
+                rng.pick(&[8u32, 16, 24, 32]),
+                any_u32(rng, &bset),
+                any_u32(rng, &bset),
+                any_u32(rng, &bset),
+                any_u32(rng, &bset)
+            ),
+        }
+    };
+    for &c in &dxgi {
+        for ctor in ["I", "V", "C"] {
+            out.push(format!("KS {ctor} 10:{c} 16 9 5"));
+            out.push(format!("KS {ctor} 10:28 16 9 5 G:{c}"));
+        }
+        out.push(format!("KS I 10:{c} 8 8 1 A:6 Q:4 M:4 L:{}", c % 5));
+        out.push(format!("KS V 10:{c} 8 8 4 R:{} A:{}", 2 + c % 3, c % 3));
+    }
+    for f in 0..256u32 {
+        out.push(format!("KS {} 9:F:{} 8 8 2 C:{f}", ["I", "V", "C"][(f % 3) as usize], KNOWN_FOURCC[(f as usize) % KNOWN_FOURCC.len()]));
+    }
+    for m in &masks {
+        out.push(format!("KS I 9:{m} 7 5 1 M:3"));
+        out.push(format!("KS C 9:F:{} 7 5 1 P:{m} C:21", KNOWN_FOURCC[0]));
+    }
+    let nks = if thorough { 60_000 } else { 4_000 };
+    for _ in 0..nks {
+        let ctor = *rng.pick(&["I", "V", "C"]);
+        let dx10 = rng.chance(1, 2);
+        let start = if dx10 { format!("10:{}", rng.pick(&dxgi)) } else { format!("9:{}", any_pf(&mut rng)) };
+        let mut l = format!(
+            "KS {ctor} {start} {} {} {}",
+            any_u32(&mut rng, &bset),
+            any_u32(&mut rng, &bset),
+            any_u32(&mut rng, &bset)
+        );
+        for _ in 0..rng.below(6) {
+            let (a, b, c) = (any_u32(&mut rng, &bset), any_u32(&mut rng, &bset), any_u32(&mut rng, &bset));
+            l += &match (rng.below(8), dx10) {
+                (0, _) => format!(" S:{a}:{b}"),
+                (1, _) => format!(" D:{a}:{b}:{c}"),
+                (2, _) => format!(" D:{a}:{b}:-"),
+                (3, _) => format!(" M:{}", c.max(1)),
+                (4, false) | (5, false) => format!(" C:{}", a % 256),
+                (_, false) => format!(" P:{}", any_pf(&mut rng)),
+                (4, true) => format!(" G:{}", rng.pick(&dxgi)),
+                (5, true) => format!(" R:{}", 2 + a % 3),
+                (6, true) => {
+                    if rng.chance(1, 2) {
+                        format!(" Q:{}", [0u32, 4, 4, 1, 5, b][rng.below(6) as usize])
+                    } else {
+                        format!(" L:{}", a % 5)
+                    }
+                }
+                (_, true) => format!(" A:{}", [0u32, 1, 1, 2, 6, 12, c][rng.below(7) as usize]),
             };
         }
         out.push(l);
